@@ -774,6 +774,25 @@ func main() {
 	w("def retryRunningStatuses : List String := %s", leanList(retryStatuses))
 	w("")
 
+	// ---- calcGamePlayerIndexes: the test that admits a player to the hand's list (every `if` around an append to the list)
+	listTests := []string{}
+	if fd := findFunc(teInt, "tableEngine", "calcGamePlayerIndexes"); fd != nil {
+		ast.Inspect(fd.Body, func(n ast.Node) bool {
+			i, ok := n.(*ast.IfStmt)
+			if !ok {
+				return true
+			}
+			for _, st := range i.Body.List {
+				if a, ok := st.(*ast.AssignStmt); ok && strings.HasPrefix(src(a), "gamePlayerIndexes = append(gamePlayerIndexes") {
+					listTests = append(listTests, src(i.Cond))
+				}
+			}
+			return true
+		})
+	}
+	w("def handListTests : List String := %s", leanList(listTests))
+	w("")
+
 	// ---- statistics: the event symbol validateGameStatisticGameState compares with
 	statEv := "unknown"
 	if fd := findFunc(stats, "tableEngine", "validateGameStatisticGameState"); fd != nil && len(fd.Body.List) > 0 {
